@@ -416,6 +416,7 @@ def judgeLine (st : St) (l : String) : Except Verdict St := do
         return addBr st "restore"
       | _ => .error (.badop l)
     else if kind == "sleep" then return st
+    else if kind == "stall" then return (addBr st "write-stalled-while-keepalive-due")
     else .error (.badop l)
   | ["ubs", tok, k, hex] =>
     -- unbuffered batch with a snapshot request after k points
